@@ -138,7 +138,7 @@ def check_C14(ctx, unit):
                 ctx.inst("K.index-pairing", "%s: subscript #%d of %s" % (f.sig, k, base.split("#")[0]), ok, n.loc,
                          "index ranges over %s, table has %s buckets" % (capc.split("#")[0], want.split("#")[0]), f)
             # --- bucket of key
-            kparams = {p["d"] for p in f.params() if p["n"] == "key"}
+            kparams = {f.params()[0]["d"]} if f.params() else set()
             k = 0
             for did, (h, cap) in sorted(idx.items()):
                 k += 1
